@@ -72,3 +72,62 @@ def placeholder_contexts(tpl, name):
             before = re.sub("\x00\\d+\x00", "<arg>", txt[:pos])
             out.append(before[-200:])
     return out
+
+
+# ----------------------------------------------------------- G-FLOW a (C07)
+FREE_TEXT = {"description", "semantic_type", "semantic_version", "character_encoding", "constant_value", "package"}
+# enum validValue text is free text only for char enums (one character, pasted between single quotes)
+
+
+def literal_context(before):
+    """'string' if the placeholder sits inside a "..." literal of the emitted C++,
+    'char' inside '...', else 'code' (decided on the current line of template text)"""
+    line = before.split("\n")[-1]
+    # strip escaped quotes
+    line = line.replace('\\"', "").replace("\\'", "")
+    if line.count('"') % 2 == 1:
+        return "string"
+    if line.count("'") % 2 == 1:
+        return "char"
+    return "code"
+
+
+def check_free_text(chk):
+    """free-text schema strings must not reach a C++ string/char literal of a
+    template unescaped (accepted schema -> header that does not compile)"""
+    f = gen.facts()
+    esc = [fn for fn in gen.sbeppc_functions(f) if re.search(r"escape", fn["name"])]
+    n = 0
+    for fc in gen.format_calls(f):
+        if fc.kind != "format" or not fc.template:
+            continue
+        fields = gen.placeholders(fc.template)
+        txt = gen.render_literal_text(fc.template)
+        for i, (nm, s, e) in enumerate(fields):
+            marker = "\x00%d\x00" % i
+            pos = txt.find(marker)
+            before = re.sub("\x00\\d+\x00", "X", txt[:pos])
+            ctx = literal_context(before)
+            if ctx == "code":
+                continue
+            arg = fc.named.get(nm)
+            if arg is None:
+                pi = int(nm) if nm.isdigit() else [j for j, x in enumerate([y for y in fields if not y[0] or y[0].isdigit()]) if x[1] == s]
+                if isinstance(pi, list):
+                    pi = pi[0] if pi else None
+                if pi is None or pi >= len(fc.positional):
+                    continue
+                arg = fc.positional[pi]
+            n += 1
+            reads = set(gen.member_reads(arg))
+            escaped = any((x.get("callee") or {}).get("name", "").find("escape") >= 0 for x in walk(arg))
+            hot = sorted(reads & FREE_TEXT)
+            key = "free-text:%s:{%s}" % (gen.short(fc.fn), nm)
+            if hot and not escaped:
+                chk.violation("G-FLOW.a", key, fc.where,
+                              "template in %s pastes schema free text (%s) into a C++ %s literal through {%s} without escaping: a "
+                              "quote, backslash or newline in the XML attribute yields a header that does not compile"
+                              % (gen.short(fc.fn), ", ".join(hot), ctx, nm))
+            else:
+                chk.ok("G-FLOW.a", key + "#%s" % fc.line, {"where": fc.where, "context": ctx, "sources": sorted(reads)[:6]}, nontrivial=True)
+    chk.floor("G-FLOW.a literal-context placeholders", n, 30)
